@@ -86,6 +86,23 @@ def split_targs(s):
     return name, args
 
 
+def q_matches(q, suf):
+    """qualified-name suffix match; a suffix without template arguments also matches an instantiation"""
+    if q == suf or q.endswith("::" + suf):
+        return True
+    if "<" not in suf and q.endswith(">"):
+        depth = 0
+        for i in range(len(q) - 1, -1, -1):
+            if q[i] == ">":
+                depth += 1
+            elif q[i] == "<":
+                depth -= 1
+                if depth == 0:
+                    q0 = q[:i]
+                    return q0 == suf or q0.endswith("::" + suf)
+    return False
+
+
 def lconst(s):
     """strip a leading (top-level) const only"""
     s = s.strip()
@@ -1079,7 +1096,7 @@ class Emitter:
             return h
         q = self.ix.qual.get(rid, r["name"])
         for suf, h in self.cfg.ext_q.items():
-            if q == suf or q.endswith("::" + suf):
+            if q_matches(q, suf):
                 self.used_ext[suf] += 1
                 return h
         dd = self.ix.definition_of(rid)
@@ -1206,6 +1223,14 @@ class Emitter:
                 return self.expr(inner)   # opaque shim types have no base sub-object
         except ExtractionError:
             pass
+        t = self.ctype(n["type"])
+        brec = self.find_record(lconst(strip_ns((n["type"].get("desugaredQualType") or n["type"]["qualType"]).rstrip("*& "))))
+        if brec is not None and not any(c.get("kind") == "FieldDecl" for c in brec.get("inner", [])):
+            # a base class without data members: reinterpret the pointer (the base sub-object is empty)
+            self.report["derived-to-base conversions to a field-less base turned into pointer casts"] += 1
+            if t.ptr and not t.is_ref:
+                return "((%s)(%s))" % (t.text(), self.expr(inner))
+            return "(*(%s *)&(%s))" % (t.base, self.expr(inner))
         raise ExtractionError("derived-to-base conversion not supported")
 
     def explicit_cast(self, n):
@@ -1309,7 +1334,7 @@ class Emitter:
         if d is not None:
             q = self.ix.qual.get(rid, name)
             for suf, h in self.cfg.ext_q.items():
-                if q == suf or q.endswith("::" + suf):
+                if q_matches(q, suf):
                     self.used_ext[suf] += 1
                     if callable(h):
                         return h(self, node, recv, args)
